@@ -14,7 +14,7 @@ Angs == { <<R(1), R(0)>>, <<R(0), R(1)>>, <<R(-1), R(0)>>, <<R(0), R(-1)>>,
 \* rotation: <<cos, sin, extra full turns (for the spelling in degrees)>>
 Rots == IF Full THEN { <<R(1), R(0), 0>>, <<R(0), R(1), 0>>, <<R(-1), R(0), 0>>, <<R(0), R(-1), 0>>, <<R(0), R(1), 1>>,
                        <<Q(3, 5), Q(4, 5), 0>>, <<Q(12, 13), Q(5, 13), 0>>, <<Q(-4, 5), Q(3, 5), -1>>, <<Q(4, 5), Q(-3, 5), 0>> }
-        ELSE { <<R(1), R(0), 0>>, <<R(0), R(1), 1>>, <<Q(3, 5), Q(4, 5), 0>>, <<Q(-4, 5), Q(3, 5), -1>> }
+        ELSE { <<R(1), R(0), 0>>, <<R(0), R(1), 1>>, <<Q(3, 5), Q(4, 5), 0>>, <<Q(-4, 5), Q(3, 5), -1>>, <<Q(12, 13), Q(-5, 13), 0>> }
 Radii == IF Full THEN { <<R(5), R(5)>>, <<R(10), R(5)>>, <<R(3), R(7)>>, <<R(100), R(1)>>, <<Q(1, 2), R(2)>>, <<R(13), R(13)>> }
          ELSE { <<R(5), R(5)>>, <<R(10), R(5)>>, <<R(3), R(7)>> }
 Centres == IF Full THEN { <<R(0), R(0)>>, <<R(7), R(-3)>> } ELSE { <<R(7), R(-3)>> }
